@@ -7,10 +7,9 @@ package main
 //     uninterpreted functions of (k,h) (leading byte in 01..7e, so no padding is needed);
 //   * ParsePubKey / ParseSignature / ParseDERSignature succeed on what the model produced and are
 //     an arbitrary (uninterpreted) boolean of the bytes otherwise;
-//   * Verify(h, pub, sig) is an uninterpreted boolean of (h, pub bytes, sig bytes), except that for
-//     every signature made by Sign(k, h0): Verify(h, pub(k), that signature) <=> h "equals" h0,
-//     where equality of two digests of the same hash UF is equality of their preimages
-//     (collision-free idealisation).
+//   * Verify(h, pub, sig) holds exactly when sig is a signature the model made by Sign(k, h0) with
+//     pub = pub(k) and h "equal" to h0 (existential unforgeability), where equality of two digests
+//     of the same hash UF is equality of their preimages (collision-free idealisation).
 
 import (
 	"fmt"
@@ -300,16 +299,19 @@ func init() {
 			v = tb.App(fmt.Sprintf("ecdsa_verify_%d_%d_%d", len(hash), len(pub), len(sig.bytes)), SBool, in.concatCells(hash), in.concatCells(pub), in.concatCells(sig.bytes))
 		}
 		in.hashInjectivity()
+		// existential unforgeability: a (hash, key, signature) triple verifies exactly when the
+		// signature is one the model made with that key over an equal digest
+		made := tb.False
 		for _, rec := range in.ec().signs {
 			rp := in.ecPub(rec.key)
 			if len(rp) != len(pub) || len(rec.sig) != len(sig.bytes) {
 				continue
 			}
-			// a signature made by key k over h0 verifies exactly under pub(k) for a digest equal to h0
 			sameSig := in.bytesEq(Slice{A: rec.sig}, Slice{A: sig.bytes})
 			samePub := in.bytesEq(Slice{A: rp}, Slice{A: pub})
-			in.addPC(tb.Implies(sameSig, tb.Eq(v, tb.And(samePub, in.hashEqIdeal(hash, rec.hash)))))
+			made = tb.Or(made, tb.And(sameSig, tb.And(samePub, in.hashEqIdeal(hash, rec.hash))))
 		}
+		in.addPC(tb.Eq(v, made))
 		return v
 	})
 }
